@@ -44,8 +44,55 @@ def hexDigit (n : Nat) : Char := if n < 10 then Char.ofNat (48 + n) else Char.of
 def encodeKey (s : String) : String :=
   "k" ++ String.ofList (s.toUTF8.toList.flatMap fun b => [hexDigit (b.toNat / 16), hexDigit (b.toNat % 16)])
 
+/-- history operations on the wire: `R` | `W` | `B v(9) o(3) s` | `V v(9)` | `O o(3)` | `P a b c`. -/
+def parseOps : Nat → List String → Option (List (HOp Rat) × List String)
+  | 0, rest => some ([], rest)
+  | n + 1, toks =>
+    match toks with
+    | "R" :: rest => (parseOps n rest).map fun (l, r) => (HOp.read :: l, r)
+    | "W" :: rest => (parseOps n rest).map fun (l, r) => (HOp.rewrite :: l, r)
+    | "B" :: rest =>
+      match (parseRats? (rest.take 9)).bind M3.ofList?, (parseRats? ((rest.drop 9).take 3)).bind V3.ofList?,
+            (rest.drop 12).head? with
+      | some v, some o, some sc =>
+        if sc = "1" ∨ sc = "0" then
+          (parseOps n (rest.drop 13)).map fun (l, r) => (HOp.setBox v o (sc == "1") :: l, r)
+        else none
+      | _, _, _ => none
+    | "V" :: rest =>
+      match (parseRats? (rest.take 9)).bind M3.ofList? with
+      | some v => (parseOps n (rest.drop 9)).map fun (l, r) => (HOp.setVects v :: l, r)
+      | none => none
+    | "O" :: rest =>
+      match (parseRats? (rest.take 3)).bind V3.ofList? with
+      | some o => (parseOps n (rest.drop 3)).map fun (l, r) => (HOp.setOrigin o :: l, r)
+      | none => none
+    | "P" :: a :: b :: c :: rest =>
+      if (a = "1" ∨ a = "0") ∧ (b = "1" ∨ b = "0") ∧ (c = "1" ∨ c = "0") then
+        (parseOps n rest).map fun (l, r) => (HOp.setPbc ⟨a == "1", b == "1", c == "1"⟩ :: l, r)
+      else none
+    | _ => none
+
 def handleC04 (toks : List String) : String :=
   match toks with
+  -- hist e n box(12) nops ops… lo hi lo hi lo hi atoms: the history run on ONE object from its initial state, then
+  -- supersize on the object (scaled positions through the cache); reply: visible box(12) of the object, then the result
+  | "hist" :: e :: n :: rest =>
+    match e.toNat?, n.toNat?, parseRats? (rest.take 12), ((rest.drop 12).head?).bind String.toNat? with
+    | some e, some n, some bx, some nops =>
+      match M3.ofList? (bx.take 9), V3.ofList? (bx.drop 9), parseOps nops (rest.drop 13) with
+      | some v, some o, some (ops, rest2) =>
+        match parseInts? (rest2.take 6), parseAtoms e n (rest2.drop 6) with
+        | some [l0, h0, l1, h1, l2, h2], some atoms =>
+          match Size.ofPair? l0 h0, Size.ofPair? l1 h1, Size.ofPair? l2 h2 with
+          | some sa, some sb, some sc =>
+            let s0 : SysObj Rat := ⟨⟨v, o, none⟩, atoms, ⟨true, true, true⟩⟩
+            let s := s0.run ops
+            showRats (s.box.vects.toList ++ s.box.origin.toList) ++ " " ++ showResult (s.supersizeC sa sb sc)
+          | _, _, _ => err "value"
+        | _, _ => err "format"
+      | _, _, _ => err "format"
+    | _, _, _, _ => err "format"
   -- keys k<hex>...: names of the per-atom properties a copy made by supersize / rotate carries
   | "keys" :: ks =>
     match ks.mapM decodeKey with
